@@ -299,7 +299,9 @@ func robustHasBuild(c robustCase) bool {
 
 func (robustSuite) Gen(r *Rng, i int, tier string) any {
 	var c robustCase
-	add := func(reader string, data []byte) { c.Inputs = append(c.Inputs, robustInput{reader, hex.EncodeToString(data)}) }
+	add := func(reader string, data []byte) {
+		c.Inputs = append(c.Inputs, robustInput{reader, hex.EncodeToString(data)})
+	}
 	if i == 0 {
 		// boundary inputs for every reader: empty, one byte, a bare gzip header, an unterminated quote, a self-including configuration
 		for _, rd := range []string{"version", "constraint", "index", "installed", "passwd", "group", "osrelease", "lock", "imageconfig", "indexarchive", "split", "expandapk"} {
@@ -308,6 +310,29 @@ func (robustSuite) Gen(r *Rng, i int, tier string) any {
 			}
 		}
 		// every constraint name with every degenerate version text (release-suffix and separator scanners at their boundaries)
+		for _, rd := range []string{"pkginfo", "perms", "world", "repos", "repoline", "resub-version", "resub-pin", "resub-alpine", "resub-signature"} {
+			for _, b := range robustBoundary {
+				add(rd, []byte(b))
+			}
+		}
+		for _, l := range robustRepoLines {
+			add("repoline", []byte(l))
+		}
+		for _, l := range robustRegexSeeds() {
+			add("regex", []byte(l))
+		}
+		for _, l := range robustAlpineRepos {
+			add("resub-alpine", []byte(l))
+		}
+		for _, l := range robustSigNames {
+			add("resub-signature", []byte(l))
+		}
+		for _, l := range []string{"=", "datahash", "datahash=", "=x", "datahash = a = b", "datahash = a\ndatahash = b", " datahash\t=\tx ", "triggers = a\ntriggers = b\n"} {
+			add("pkginfo", []byte(l))
+		}
+		for _, l := range []string{"0:0", "0:0:755", "0:0:755:1", "::", "-1:+2:0777", "a:0:0", "0:0:8", "0:0:"} {
+			add("perms", []byte(l))
+		}
 		for _, n := range conNames {
 			for _, v := range conEdgeVers {
 				add("constraint", []byte(n+"="+v))
@@ -358,7 +383,7 @@ func (robustSuite) Gen(r *Rng, i int, tier string) any {
 	}
 	n := 60
 	for k := 0; k < n; k++ {
-		switch r.Intn(14) {
+		switch r.Intn(17) {
 		case 0:
 			add("version", []byte(mutateBytes(r, genVersion(r).String())))
 		case 1:
@@ -434,6 +459,37 @@ func (robustSuite) Gen(r *Rng, i int, tier string) any {
 				}
 			}
 			add(rd, robustMutate(r, robustApkSeed(), false))
+		case 14:
+			switch r.Intn(6) {
+			case 0:
+				add("pkginfo", robustMutate(r, []byte(robustPkginfoSeed), true))
+			case 1:
+				add("perms", []byte(mutateBytes(r, Pick(r, []string{"0:0:755", "1000:1000:4755", "65534:65534:644", "0:0:0"}))))
+			case 2:
+				add("world", robustMutate(r, []byte(robustWorldSeed), true))
+			case 3:
+				b := robustMutate(r, []byte(robustReposSeed), true)
+				add("repos", b)
+				ls := strings.Split(string(b), "\n")
+				if l := Pick(r, ls); len(l) < 4096 {
+					add("repoline", []byte(l))
+				}
+			case 4:
+				add("repoline", []byte(mutateBytes(r, Pick(r, robustRepoLines))))
+			default:
+				add("regex", []byte(robustRegexLiteral(r)))
+			}
+		case 15:
+			switch r.Intn(4) {
+			case 0:
+				add("resub-version", []byte(mutateBytes(r, genVersion(r).String())))
+			case 1:
+				add("resub-pin", []byte(mutateBytes(r, genConstraint(r, genVersion(r).String()))))
+			case 2:
+				add("resub-alpine", []byte(mutateBytes(r, Pick(r, robustAlpineRepos))))
+			default:
+				add("resub-signature", []byte(mutateBytes(r, Pick(r, robustSigNames))))
+			}
 		default:
 			// hostile tar entry names through the lazy in-memory file system and the installed-db writer
 			names := []string{Pick(r, robustHostileNames), Pick(r, robustHostileNames)}
@@ -527,6 +583,42 @@ func (p *robustProc) ask(in robustInput, timeout time.Duration) (string, bool) {
 	}
 }
 
+// robustModelLine: the request for the model of a reader of robust_readers.go (aux = the input as the model sees it)
+func robustModelLine(in robustInput, alive, panicked bool, aux string) (string, bool) {
+	if !alive || panicked {
+		return "", false
+	}
+	switch in.Reader {
+	case "osrelease":
+		return "x.osrel\t" + in.Data, true
+	case "pkginfo":
+		return "x.ctl\t" + in.Data, true
+	case "perms":
+		return "x.perms\t" + in.Data, true
+	case "world":
+		return "x.world\t" + in.Data, true
+	case "repos":
+		return "x.repos\t" + in.Data, true
+	case "repoline":
+		return "x.repoline\t" + in.Data, true
+	case "regex":
+		return "x.groups\t" + in.Data, true
+	case "resub-version", "resub-alpine", "resub-signature":
+		return "x.resub\t" + strings.TrimPrefix(in.Reader, "resub-") + "\t" + in.Data + "\t" + aux, true
+	case "resub-pin":
+		return "x.resub\tpin\t" + aux, true // aux = the text the expression saw, then the matches
+	case "split":
+		return "x.split\t" + aux, true
+	case "expandapk":
+		return "x.expand\t" + aux, true
+	case "indexarchive":
+		return "x.idxarch\t" + aux, true
+	case "imageconfig-inc":
+		return "x.inc\t" + aux, true
+	}
+	return "", false
+}
+
 func firstLine(s string) string {
 	if i := strings.IndexByte(s, '\n'); i >= 0 {
 		s = s[:i]
@@ -556,6 +648,10 @@ func (robustSuite) Run(raw json.RawMessage) []Step {
 		ans, alive := p.ask(in, 10*time.Second)
 		if !alive {
 			p = nil
+		}
+		aux := ""
+		if alive {
+			ans, aux, _ = strings.Cut(ans, "\t")
 		}
 		data, _ := hex.DecodeString(in.Data)
 		desc := fmt.Sprintf("%s(%q)", in.Reader, short(string(data)))
@@ -591,10 +687,29 @@ func (robustSuite) Run(raw json.RawMessage) []Step {
 		case "group":
 			st.Line = "f.gr.r\t" + in.Data
 		default:
-			st.Line = "x.robust\t" + hex.EncodeToString(h[:8])
-			st.NoImpl = true
+			if line, ok := robustModelLine(in, alive, strings.HasPrefix(ans, "panic"), aux); ok {
+				st.Line = line
+			} else {
+				st.Line = "x.robust\t" + hex.EncodeToString(h[:8])
+				st.NoImpl = true
+			}
 		}
 		steps = append(steps, st)
+		// the same input through the checked-accessor model of the reader (Model/Robust.lean)
+		if alive && !strings.HasPrefix(ans, "panic") {
+			switch in.Reader {
+			case "passwd":
+				st2 := st
+				st2.Line = "x.pw\t" + in.Data
+				st2.Tags = []string{"checked:passwd"}
+				steps = append(steps, st2)
+			case "group":
+				st2 := st
+				st2.Line = "x.gr\t" + in.Data
+				st2.Tags = []string{"checked:group"}
+				steps = append(steps, st2)
+			}
+		}
 	}
 	return steps
 }
@@ -632,6 +747,9 @@ func robustApply(reader string, data []byte) (ans string) {
 		return "ok"
 	}
 	ctx := context.Background()
+	if a, ok := robustApply2(reader, data); ok {
+		return a
+	}
 	switch reader {
 	case "version":
 		_, o := goParse(string(data))
@@ -650,8 +768,11 @@ func robustApply(reader string, data []byte) (ans string) {
 		return goGrR(string(data))
 	case "osrelease":
 		fsys := fstest.MapFS{"etc/os-release": &fstest.MapFile{Data: data}}
-		_, _, _, err := build.VerifReadReleaseData(robustRootFS{fsys})
-		return okErr(err)
+		id, name, ver, err := build.VerifReadReleaseData(robustRootFS{fsys})
+		if err != nil {
+			return "err"
+		}
+		return fmt.Sprintf("ok %s|%s|%s", hx(id), hx(name), hx(ver))
 	case "lock":
 		dir, _ := os.MkdirTemp("", "verif-robust-")
 		defer os.RemoveAll(dir)
@@ -691,32 +812,43 @@ func robustApply(reader string, data []byte) (ans string) {
 			}
 			os.WriteFile(filepath.Join([]string{inc, inc2}[k%2], fmt.Sprintf("f%d.yaml", k)), f, 0o644)
 		}
+		// the working directory matters to paths.ResolvePath (a bare name is first looked up as it is): stand in the
+		// scratch directory, where no f<k>.yaml exists, for the real reader and for the description of the graph alike
+		if wd, err := os.Getwd(); err == nil {
+			defer os.Chdir(wd)
+		}
+		os.Chdir(dir)
+		graph := robustIncludeGraph("f0.yaml", []string{inc, inc2})
 		var ic types.ImageConfiguration
 		if err := ic.Load(ctx, "f0.yaml", []string{inc, inc2}, sha256.New()); err != nil {
-			return "err"
+			return "err\t" + graph
 		}
-		return "ok validate:" + okErr(ic.Validate())
+		ic.Validate()
+		return "ok\t" + graph
 	case "indexarchive":
 		_, err := apk.IndexFromArchive(io.NopCloser(bytes.NewReader(data)))
-		return okErr(err)
+		return okErr(err) + "\t" + robustEntries(data)
 	case "split":
 		rs, err := expandapk.Split(bytes.NewReader(data))
 		if err != nil {
-			return "err"
+			return "err\t" + robustMembers(data)
 		}
 		for _, r := range rs {
 			io.Copy(io.Discard, r)
 		}
-		return fmt.Sprintf("ok %d", len(rs))
+		// and the control section ParsePackageInfo picks (split[0] / split[1]) — a result or an error, never a panic
+		apk.ParsePackageInfo(bytes.NewReader(data))
+		return fmt.Sprintf("ok %d control", len(rs)) + "\t" + robustMembers(data)
 	case "expandapk":
 		dir, _ := os.MkdirTemp("", "verif-robust-")
 		defer os.RemoveAll(dir)
 		e, err := expandapk.ExpandApk(ctx, bytes.NewReader(data), dir)
 		if err != nil {
-			return "err"
+			return "err\t" + robustMembers(data)
 		}
+		signed := e.Signed
 		e.Close()
-		return "ok"
+		return fmt.Sprintf("ok signed=%v", signed) + "\t" + robustMembers(data)
 	case "hostile-apk":
 		// a whole build from a package whose data section carries hostile entries
 		var files []SFile
